@@ -396,7 +396,7 @@ def bounds_as_constraint(ctx):
             know = dict(lits)
             know.update(dict(cl))
             cn = know.get(clipnone)
-            kw = dict(leaf[3]) if leaf[0] == 'call' and T.show(leaf[1]) == 'dict' else None
+            kw = dict(leaf[3]) if leaf[0] == 'call' and T.show(leaf[1]) == 'dict' else ({} if leaf == ('dict',) else None)
             if cn is True:
                 tt = know.get(tight)
                 want = {'symbolic': ('const', True)} if tt is True else ({} if tt is False else None)
@@ -541,3 +541,42 @@ def wrappers_hand_the_bounds_on_unchanged(ctx):
     got, want = SB.agree(f.node, ref, strict_casts=True)
     ctx.stats['terms_compared'] += len(got)
     ctx.check(got == want, 'tools.unpair', 'asarray(pairs).transpose() -> lists, no dtype', 'unpair differs from its confirmed behaviour: %s' % SB.diff(got, want)[:300], f, f.node)
+
+
+RAW_COST_REGISTRATION = ('SetObjective', '_bootstrap_objective', 'Solve', 'Step', '_Step', '_Solve')
+
+
+@rule('C02.j', min_instances=3)
+def only_the_decorated_objective_evaluates_the_cost(ctx):
+    """who may call the raw cost: wherever package code reads a solver's raw cost (<solver>._cost[1]) it only tests it or hands it back to the registration / run interface (SetObjective, _bootstrap_objective, Solve, Step), which wrap it in the bounds gate again; calling it, or handing it to anything else (a finite-difference gradient), evaluates the user's cost outside the gate - outside the strict ranges, uncounted and unlogged"""
+    n = 0
+    for mname, m in sorted(ctx.model.modules.items()):
+        if mname.startswith('mystic.tests') or mname.startswith('mystic.models'):
+            continue
+        for q, fi in sorted(m.funcs.items()):
+            local = {}
+            for st in stmts_of(fi.node):
+                if isinstance(st, ast.Assign) and len(st.targets) == 1 and isinstance(st.targets[0], ast.Name) and ''.join(unparse(st.value).split()).endswith('._cost[1]'):
+                    local[st.targets[0].id] = st
+
+            def is_raw(e):
+                return (isinstance(e, ast.Subscript) and ''.join(unparse(e).split()).endswith('._cost[1]')) or (isinstance(e, ast.Name) and e.id in local)
+            for c in [x for x in ast.walk(fi.node) if isinstance(x, ast.Call)]:
+                uses = []
+                if is_raw(c.func):
+                    uses.append('called directly')
+                for a in list(c.args) + [k.value for k in c.keywords]:
+                    if is_raw(a):
+                        callee = c.func.attr if isinstance(c.func, ast.Attribute) else (c.func.id if isinstance(c.func, ast.Name) else '?')
+                        if callee not in RAW_COST_REGISTRATION:
+                            uses.append('handed to %s()' % callee)
+                        else:
+                            n += 1
+                            ctx.touch(fi)
+                            ctx.ok('%s#raw-cost->%s' % (fi.qualname, callee), 'the raw cost is handed back to the registration / run interface', fi, c)
+                for u in uses:
+                    n += 1
+                    ctx.touch(fi)
+                    ctx.bad('%s#raw-cost' % fi.qualname, '%s evaluates the user\'s raw cost outside the decorated objective (%s): with strict ranges the cost is called outside the box, and the call is neither counted nor logged'
+                            % (fi.qualname, u), fi, enclosing_stmt(c) or fi.node, statement='raw cost %s' % u)
+    ctx.need(n >= 3, 'expected >= 3 uses of <solver>._cost[1] as a value, found %d' % n)
